@@ -37,7 +37,9 @@ THEOREMS = ['Props.C03.' + t for t in [
 LEVEL_TEXT = ('Proof: Lean theorems about an executable model of mulgrid.write / mulgrid(file): for every well-formed geometry (decidable WF = the '
               "property's quantifier: right-justified names, options in range, values within the 10-column limit, >= 1 layer) read(write g) = canonGeo g "
               '(geo_roundtrip, full strength) with corollaries for header options, nodes, columns, connections, layers, surfaces, wells; block and connection '
-              'name lists identical when rounding moves no surface across a layer boundary (names_lists_preserved, decidable StableSurfaces); FEET files hold '
+              'name lists identical when rounding moves no surface across a layer boundary (names_lists_preserved), which for library-consistent geometries is '
+              'exactly when no surface lies strictly above a layer bottom and is written as the same decimal (surface_crossing_characterised, monotone '
+              'rounding; witness surface_on_boundary_changes_names also run on the real code); wells incl. 10.1f rounding and name justification to 5; FEET files hold '
               'feet and re-read to metres (feet_roundtrip); right-justified names are inverse-safe (rjust_names_safe) and a left-justified one is not. '
               'PARTIAL: the layer-centre clause and the byte-for-byte second write carry the decidable hypothesis LayerCentresKept (KNOWN FINDING '
               'layer-centre-zero-recomputed: proved necessary by the model witnesses layer_centre_zero_lost / second_file_differs, replayed on the real code); '
